@@ -2,7 +2,8 @@
 (* C15: docstring prose outside the parameter section is preserved.
 
    A docstring is a sequence of lines; a line is [k, id]:
-     k = "T" prose text (opaque id), "B" blank, "I" indented prose, "D" doctest line, "S" a line of the parameter/return
+     k = "T" prose text (opaque id), "B" blank, "I" indented prose, "D" doctest line, "U" a dashed underline of the prose
+     line above it (a sub-heading in the long description / a `Notes` heading in the footer), "S" a line of the parameter/return
      section (id = position inside the section; the section of a style may contain blank separator lines "SB").
    doc = header \o section(style) \o footer, written at indentation level `indent`.
    Split(doc) = <<header, args, footer>>:  SplitConcat  header \o args \o footer = doc
@@ -16,8 +17,12 @@ CONSTANTS Enabled, Shard, NShards
 
 Styles == <<"rest", "google", "numpydoc">>
 StyleSet == {"rest", "google", "numpydoc"}
-HeaderShapes == {<<"T">>, <<"T", "B", "T">>, <<"T", "B", "T", "T">>, <<"T", "B", "I">>, <<"T", "B", "D", "B", "T">>, <<"T", "T">>}
-FooterShapes == {<<>>, <<"B", "T">>, <<"B", "D", "D">>, <<"B", "T", "B", "T">>}
+HeaderShapes == {<<"T">>, <<"T", "B", "T">>, <<"T", "B", "T", "T">>, <<"T", "B", "I">>, <<"T", "B", "D", "B", "T">>, <<"T", "T">>,
+                 <<"T", "B", "T", "U", "T">>, <<"T", "B", "T", "U", "B", "T">>}
+FooterShapes == {<<>>, <<"B", "T">>, <<"B", "D", "D">>, <<"B", "T", "B", "T">>, <<"B", "T", "U", "T">>}
+\* the route a conversion takes: the docstring parser + emitter directly, or a function definition parsed and re-emitted
+\* (the path `doctrans` takes: the original docstring is carried alongside the IR)
+Routes == {"docstring", "function"}
 \* the section of each style for one parameter + a return entry: which of its lines are blank separators
 SectionOf(st) == CASE st = "rest" -> <<"S", "S", "SB", "S", "S">>                  \* :param/:type, blank, :return/:rtype
                    [] st = "google" -> <<"S", "S", "SB", "S", "S">>                \* Args: / item, blank, Returns: / item
@@ -30,30 +35,36 @@ FirstS(d) == CHOOSE i \in 1..Len(d) : IsSection(d[i]) /\ \A j \in 1..(i - 1) : ~
 LastS(d) == CHOOSE i \in 1..Len(d) : IsSection(d[i]) /\ \A j \in (i + 1)..Len(d) : ~IsSection(d[j])
 Split(d) == <<SubSeq(d, 1, FirstS(d) - 1), SubSeq(d, FirstS(d), LastS(d)), SubSeq(d, LastS(d) + 1, Len(d))>>
 Restyle(d, to) == Split(d)[1] \o Number(SectionOf(to), 200) \o Split(d)[3]
-Prose(s) == SelectSeq(s, LAMBDA l : l.k \in {"T", "I", "D"})
+Prose(s) == SelectSeq(s, LAMBDA l : l.k \in {"T", "I", "D", "U"})
 
 \* the named deviation: at indentation >= 1 a blank separator inside the section is re-indented by the split
+\* (a docstring that sits in a function is written one level deeper than the function)
+TextIndent(indent, route) == indent + (IF route = "function" THEN 1 ELSE 0)
 Reindents(indent, st) == "split_reindents_blank_lines" \in Enabled /\ indent >= 1 /\ \E k \in 1..Len(SectionOf(st)) : SectionOf(st)[k] = "SB"
 
-VARIABLES h, f, from, to, indent, pc, parts, restyled
-vars == <<h, f, from, to, indent, pc, parts, restyled>>
-Init == /\ h \in HeaderShapes /\ f \in FooterShapes /\ from \in StyleSet /\ to \in StyleSet /\ indent \in 0..2
+VARIABLES h, f, from, to, indent, pc, parts, restyled, route
+vars == <<h, f, from, to, indent, pc, parts, restyled, route>>
+Init == /\ h \in HeaderShapes /\ route \in Routes /\ f \in FooterShapes /\ from \in StyleSet /\ to \in StyleSet /\ indent \in 0..2
         /\ (\E k \in 1..3 : Styles[k] = from /\ k % NShards = Shard)
         /\ pc = "start" /\ parts = <<>> /\ restyled = <<>>
-DoSplit == pc = "start" /\ parts' = Split(Doc(h, from, f)) /\ pc' = "split" /\ UNCHANGED <<h, f, from, to, indent, restyled>>
-DoRestyle == pc = "split" /\ restyled' = Restyle(Doc(h, from, f), to) /\ pc' = "done" /\ UNCHANGED <<h, f, from, to, indent, parts>>
+DoSplit == pc = "start" /\ parts' = Split(Doc(h, from, f)) /\ pc' = "split" /\ UNCHANGED <<h, f, from, to, indent, restyled, route>>
+DoRestyle == pc = "split" /\ restyled' = Restyle(Doc(h, from, f), to) /\ pc' = "done" /\ UNCHANGED <<h, f, from, to, indent, parts, route>>
 Next == DoSplit \/ DoRestyle
 Spec == Init /\ [][Next]_vars
 
 IsSubseq(a, b) == \E g \in [1..Len(a) -> 1..Len(b)] : (\A i \in 1..Len(a) : b[g[i]] = a[i]) /\ (\A i, j \in 1..Len(a) : i < j => g[i] < g[j])
 SplitConcat == pc \in {"split", "done"} => parts[1] \o parts[2] \o parts[3] = Doc(h, from, f)
 HeaderClean == pc \in {"split", "done"} => (\A i \in 1..Len(parts[1]) : ~IsSection(parts[1][i])) /\ (\A i \in 1..Len(parts[3]) : ~IsSection(parts[3][i]))
+\* the header part holds ALL the header prose, and only it (where the section ends and the footer begins is left open by the
+\* statement beyond the concatenation identity, so FooterWhole is checked on the model but not demanded of the code)
+HeaderWhole == pc \in {"split", "done"} => Prose(parts[1]) = Prose(Number(h, 100))
+FooterWhole == pc \in {"split", "done"} => Prose(parts[3]) = Prose(Number(f, 300))
 HeaderKept == pc = "done" => IsSubseq(Prose(Number(h, 100)), restyled)
 \* ReST: the last `:rtype:` line swallows the footer prose that follows it into the return type
 Absorbs == "rest_footer_absorbed_into_rtype" \in Enabled /\ from = "rest" /\ f # <<>>
-Fired == (IF Reindents(indent, from) THEN {"split_reindents_blank_lines"} ELSE {})
+Fired == (IF Reindents(TextIndent(indent, route), from) THEN {"split_reindents_blank_lines"} ELSE {})
          \cup (IF Absorbs THEN {"rest_footer_absorbed_into_rtype"} ELSE {})
 RECURSIVE SetToSeq(_)
 SetToSeq(S) == IF S = {} THEN <<>> ELSE LET x == CHOOSE x \in S : TRUE IN <<x>> \o SetToSeq(S \ {x})
-Dump == pc = "done" => PrintT(ToJson([h |-> h, f |-> f, from |-> from, to |-> to, indent |-> indent, devs |-> SetToSeq(Fired)]))
+Dump == pc = "done" => PrintT(ToJson([h |-> h, f |-> f, from |-> from, to |-> to, indent |-> indent, route |-> route, devs |-> SetToSeq(Fired)]))
 =====================================================================================
